@@ -271,9 +271,10 @@ def opt       := 14  -- evolution-strategy state (_solutions, mean, covariance, 
 def kdtree    := 15  -- ProximityArchive._cur_kd_tree (its data)
 def success   := 16  -- BanditScheduler._success / _selection
 def iterState := 17  -- ArrayStoreIterator.state
-def geom      := 18  -- archive geometry (_lower_bounds, _interval_size, centroids …), read only
+def geom      := 18  -- archive geometry (_lower_bounds, _interval_size, _centroids, _samples, _boundaries …)
+def emit      := 19  -- emitter parameters (_x0, _initial_solutions, _sigma, bounds; operator._sigma)
 end F
-def nSelf : Nat := 19
+def nSelf : Nat := 20
 
 /-! ### fragments (Python helpers that the entry points call; variables are parameters,
 `o` = first output variable, `t` = first temporary) -/
@@ -875,6 +876,71 @@ def eHeatmapDf : Entry :=
             .new 14, .write 14 [11, 12] ]     -- cell_objectives[cell_idx] = objective_batch
       | _ => none }
 
+/-- `ArrayStore.from_raw_dict(d)` (repaired, D36): every array of the dict is copied. -/
+def eFromRaw : Entry :=
+  { name := "ArrayStore.from_raw_dict", pyfn := "ribs/archives/_array_store.py:ArrayStore.from_raw_dict",
+    args := caller 3, nself := nSelf, nbits := 0,   -- d["props.occupied"], d["fields.<vector>"], d["fields.objective"]
+    prog := fun
+      | [] => some
+          [ .copy 10 0, .copy 11 1, .copy 12 2,   -- np.copy(arr) if isinstance(arr, np.ndarray) else arr ; np.copy(arr)
+            .store F.occupied 10, .store F.vec 11, .store F.obj 12 ]   -- store._props = props ; store._fields = fields
+      | _ => none }
+
+/-- `CVTArchive.__init__` (repaired, D38): `custom_centroids` / `samples` are copied (`np.array`). -/
+def eCvtInit : Entry :=
+  { name := "CVTArchive.__init__", pyfn := "ribs/archives/_cvt_archive.py:CVTArchive.__init__",
+    args := caller 3, nself := nSelf, nbits := 1,   -- custom_centroids, samples, ranges
+    prog := fun
+      | [useSamples] => some <|
+          [ .arith 10 [2], .store F.geom 10 ] ++   -- ranges = list(zip(*ranges)) ; np.array(ranges[0], dtype=…)
+          (if useSamples then
+            [ .copy 11 1, .store F.geom 11,       -- samples = np.array(samples, dtype=…) ; self._samples = samples
+              .arith 12 [11], .store F.geom 12 ]  -- self._centroids = k_means(self._samples, …)
+           else
+            [ .copy 12 0, .store F.geom 12 ]) ++  -- custom_centroids = np.array(custom_centroids, dtype=…)
+          [ .arith 13 [12], .store F.kdtree 13 ]  -- self._centroid_kd_tree = cKDTree(self._centroids)
+      | _ => none }
+
+/-- `GridArchive.__init__` / `SlidingBoundariesArchive.__init__`: `dims`, `ranges`. -/
+def eGridInit : Entry :=
+  { name := "GridArchive.__init__", pyfn := "ribs/archives/_grid_archive.py:GridArchive.__init__, _sliding_boundaries_archive.py:SlidingBoundariesArchive.__init__",
+    args := caller 2, nself := nSelf, nbits := 0,   -- dims, ranges
+    prog := fun
+      | [] => some
+          [ .copy 10 0, .store F.geom 10,         -- self._dims = np.array(dims, dtype=np.int32)
+            .arith 11 [1], .store F.geom 11,      -- self._lower_bounds = np.array(ranges[0], dtype=…) …
+            .arith 12 [10, 11], .store F.geom 12 ]   -- self._boundaries = [np.linspace(…)]
+      | _ => none }
+
+/-- constructors of the emitters (repaired, D38 / D41): everything array-valued that is kept is copied
+(`np.array`); the bounds are written element by element into fresh arrays. -/
+def eEmitterInit : Entry :=
+  { name := "Emitter.__init__", pyfn := "ribs/emitters/_{gaussian,iso_line,genetic_algorithm,gradient_operator,evolution_strategy,gradient_arborescence}_emitter.py:__init__, _emitter_base.py:_process_bounds, operators/_gaussian.py:GaussianOperator.__init__",
+    args := caller 5, nself := nSelf, nbits := 1,   -- x0, initial_solutions, sigma, bounds, operator_kwargs["sigma"]
+    prog := fun
+      | [useInitial] => some
+          [ .new 10, .new 11,                     -- lower_bounds = np.full(..) ; upper_bounds = np.full(..)
+            .write 10 [3], .write 11 [3],         -- lower_bounds[idx] = bnd[0] ; upper_bounds[idx] = bnd[1]
+            .store F.emit 10, .store F.emit 11,
+            .copy 12 2, .store F.emit 12,         -- self._sigma = np.array(sigma, dtype=…)
+            (if useInitial then .copy 13 1        -- self._initial_solutions = np.array(initial_solutions, dtype=…)
+             else .copy 13 0),                    -- self._x0 = np.array(x0, dtype=…)
+            .store F.emit 13,
+            .copy 14 4, .store F.emit 14,         -- GaussianOperator: self._sigma = np.array(sigma)
+            .view 15 10, .store F.emit 15 ]       -- operator keeps the emitter's own bounds arrays
+      | _ => none }
+
+/-- `AdamOpt.__init__` / `GradientAscentOpt.__init__` (= `reset(theta0)`). -/
+def eOptInit : Entry :=
+  { name := "GradientOpt.__init__", pyfn := "ribs/emitters/opt/_adam_opt.py:AdamOpt.reset, _gradient_ascent_opt.py:GradientAscentOpt.reset",
+    args := caller 1, nself := nSelf, nbits := 0,
+    prog := fun
+      | [] => some
+          [ .copy 10 0, .store F.theta 10,        -- self._theta = np.copy(theta0)
+            .arith 11 [10], .store F.m 11,        -- self._m = np.zeros_like(self._theta)
+            .arith 12 [10], .store F.v 12 ]
+      | _ => none }
+
 def entries : List Entry :=
   [ eStoreAdd, eStoreRetrieve, eStoreData, eStoreIter, eStoreRaw,
     eXfBatch, eXfSingle, eXfObjSum, eXfBestIdx, eValidateBatch, eValidateSingle,
@@ -882,7 +948,8 @@ def entries : List Entry :=
     eBufferAdd, eSbaAddSingle, eSbaAdd, eProxAdd,
     eSchedTell, eSchedTellDqd, eBanditTell,
     eEsTell, eGaTell, eGaTellDqd, eGoTellDqd, eAdamStep, eAscentStep,
-    eParallelAxes, eHeatmapDf ]
+    eParallelAxes, eHeatmapDf,
+    eFromRaw, eCvtInit, eGridInit, eEmitterInit, eOptInit ]
 
 /-! ### negative examples: the current defective code, and realistic mutants -/
 
@@ -984,9 +1051,51 @@ def nRawWrite : Neg :=
            prog := fun | [] => some [ .load 0 F.vec, .ro 1 0, .write 1 [] ] | _ => none },
     bits := [], why := .writeReadonly 1 }
 
+/-- D38: `CVTArchive(custom_centroids=arr)` kept `np.asarray(arr, dtype=…)`: the caller's array when no
+conversion is needed. -/
+def nD38cvt : Neg :=
+  { E := { name := "D38.cvt_keeps_custom_centroids", pyfn := "CVTArchive.__init__ (unrepaired)",
+           args := caller 3, nself := nSelf, nbits := 1,
+           prog := fun | [c] => some [ .asarray 12 0 c, .store F.geom 12 ] | _ => none },
+    bits := [false], why := .storeCaller F.geom }
+
+/-- D38: the emitters kept `np.asarray(initial_solutions, dtype=…)`. -/
+def nD38init : Neg :=
+  { E := { name := "D38.emitter_keeps_initial_solutions", pyfn := "GaussianEmitter / IsoLineEmitter / GeneticAlgorithmEmitter / GradientOperatorEmitter.__init__ (unrepaired)",
+           args := caller 5, nself := nSelf, nbits := 1,
+           prog := fun | [c] => some [ .asarray 13 1 c, .store F.emit 13 ] | _ => none },
+    bits := [false], why := .storeCaller F.emit }
+
+/-- D41: `GaussianOperator.__init__` did `self._sigma = sigma`. -/
+def nD41 : Neg :=
+  { E := { name := "D41.operator_keeps_sigma", pyfn := "GaussianOperator.__init__ (unrepaired)",
+           args := caller 5, nself := nSelf, nbits := 0,
+           prog := fun | [] => some [ .view 14 4, .store F.emit 14 ] | _ => none },
+    bits := [], why := .storeCaller F.emit }
+
+/-- D36: `from_raw_dict` used the arrays of the dict themselves. -/
+def nD36 : Neg :=
+  { E := { name := "D36.from_raw_dict_shares", pyfn := "ArrayStore.from_raw_dict (unrepaired)",
+           args := caller 3, nself := nSelf, nbits := 0,
+           prog := fun | [] => some [ .view 11 1, .store F.vec 11 ] | _ => none },
+    bits := [], why := .storeCaller F.vec }
+
+/-- seeded C12-7: the iterator hands out entries of object fields "as stored" — the test is on the
+dtype instead of on "is it an ndarray": for an object field with non-scalar entries `arr[idx]` is a view. -/
+def nObjAsStored : Neg :=
+  { E := { name := "S7.object_field_entries_as_stored", pyfn := "ArrayStoreIterator.__next__ with `if arr.dtype == object: d[name] = arr[idx]`",
+           args := [], nself := nSelf, nbits := 1,
+           prog := fun
+             | [isObject] => some
+                 [ .load 4 F.vec, .view 5 4,      -- arr[idx]  (a row)
+                   (if isObject then .view 6 5 else .copy 6 5),
+                   .ret 6 ]
+             | _ => none },
+    bits := [true], why := .retInternal 6 }
+
 def negatives : List Neg :=
   [ nD7, nD10, nD10b, nD15, nD19, nD20, nRetrieveSlice, nDataField, nAdamInplace, nAddKeeps,
-    nXfWritesNew, nRawWrite ]
+    nXfWritesNew, nRawWrite, nD38cvt, nD38init, nD41, nD36, nObjAsStored ]
 
 def Neg.holds (n : Neg) : Bool := n.E.verdict n.bits == some n.why
 
